@@ -82,9 +82,9 @@ def parse_impl(c, out):
             if c.opt_p("{"):      # rustfmt wraps long arms in a block
                 c.seq("Self ::"); v = c.ident(); c.p("}"); c.opt_p(",")
             else:
-                c.seq("Self ::"); v = c.ident(); c.p(",")
+                c.seq("Self ::"); v = c.ident(); c.opt_p(",")
             rows.append((s, v))
-        c.seq("_ => return Err ( ( ) ) ,"); c.seq("} ) } }")
+        c.seq("_ => return Err ( ( ) )"); c.opt_p(","); c.seq("} ) } }")
         if e["fromstr"] is not None:
             c.fail("duplicate FromStr")
         e["fromstr"] = rows
@@ -117,8 +117,8 @@ def parse_impl(c, out):
                 else:
                     c.seq("Self ::"); v = c.ident()
                     arms.append(("named", lo, v))
-            c.p(",")
-        c.seq("_ => return None , } ) } }")
+            c.opt_p(",")
+        c.seq("_ => return None"); c.opt_p(","); c.seq("} ) } }")
         if "arms" in e: c.fail("duplicate from_u32")
         e["arms"] = arms
         return
